@@ -37,7 +37,10 @@ def msh(v, name):
     return "MSH|^~\\&|A|B|C|D|20200101120000||%s|ID1|P|%s" % (typ, v)
 
 
-def seg_text(name, n=1):
+def seg_text(name, n=1, v=None):
+    """a minimal line; a segment the version defines without fields (withdrawn, e.g. URD in 2.8.2) conforms only bare"""
+    if v is not None and len(name) == 3 and name[0] != "Z" and name in T.seg_names(v) and not T.seg_rows(v, name):
+        return name
     return "%s|%d" % (name, n)
 
 
@@ -189,7 +192,19 @@ def perturb(names, v, st_names, rnd, quick):
         out.append(("dup:" + names[k], names[:k + 1] + [names[k]] + names[k + 1:]))
         out.append(("zrun", names + ["ZZ1", "ZZ2", "ZZ1"]))
         out.append(("swap", names[:1] + list(reversed(names[1:]))))
-    return out if not quick else rnd.sample(out, min(len(out), 4))
+    # the same unlisted name several times: after the header, and before each of the last members (inside open groups)
+    must = []
+    if len(names) > 2:
+        for unl in ["ZZ1"] + ([rnd.choice(foreign)] if foreign else []):
+            seq = list(names[:1]) + [unl]
+            for k, n in enumerate(names[1:], 1):
+                if k >= len(names) - 3:
+                    seq.append(unl)
+                seq.append(n)
+            must.append(("same_unlisted:" + unl, seq))
+    if not quick:
+        return out + must
+    return rnd.sample(out, min(len(out), 3)) + must[:1] + (rnd.sample(must[1:], 1) if len(must) > 1 and rnd.random() < 0.5 else [])
 
 
 def rich_line(name, v, rnd):
@@ -204,7 +219,7 @@ def rich_line(name, v, rnd):
             fields.append("^".join("k%d_%d" % (i, j) for j in range(1, 13)) + "^m&n&o~p^q")
             continue
         fields.append("" if r < 0.5 else "a%d" % i if r < 0.7 else "b%d^c%d" % (i, i) if r < 0.8 else "d%d~e%d" % (i, i)
-                      if r < 0.9 else "f%d^g%d&h%d" % (i, i, i))
+                      if r < 0.86 else "~i%d" % i if r < 0.88 else "j%d~~k%d^l%d" % (i, i, i) if r < 0.9 else "f%d^g%d&h%d" % (i, i, i))
     extra = rnd.choice([[], [], ["x1"], ["", "x2", "y^z"]])
     text = "|".join([name] + fields + extra).rstrip("|")
     return text
@@ -228,7 +243,7 @@ def observe(v, sid, nodes, mode, names, conforming, want, lines=None):
     from hl7apy.parser import parse_message
     group_names = set(n[0] for n in nodes if n[1] == "GRP") | set([sid])
     if lines is None:
-        lines = [msh(v, sid)] + [seg_text(n, i + 1) for i, n in enumerate(names[1:])]
+        lines = [msh(v, sid)] + [seg_text(n, i + 1, v) for i, n in enumerate(names[1:])]
     text = "\r".join(lines)
     e = {"v": v, "sid": sid, "msgname": sid, "mode": mode, "want": want, "struct": nodes, "input": names, "tree": [], "ec": EC,
          "lines_in": [cps(x) for x in lines], "lines_fg": [], "lines_nofg": [], "out_fg": "ok", "out_nofg": "ok",
